@@ -9,7 +9,7 @@ KEYWORDS = ["_", "and", "annotation", "as", "attr", "class", "const", "enum", "f
             "in", "internal", "literal", "not", "null", "or", "out", "package", "pipeline", "private", "schema",
             "segment", "static", "sub", "this", "true", "union", "unknown", "val", "where", "yield"]
 
-FUNC_NAMES = ["f", "g", "my_func", "compute_all_things", "doIt", "get_x", "to_str", "helper_1", "run"]
+FUNC_NAMES = ["f", "g", "my_func", "compute_all_things", "doIt", "get_x", "to_str", "helper_1", "run", "num_sides", "area_of"]
 PRIV_FUNC_NAMES = ["_hidden", "_helper_fn", "__very_private"]
 CLASS_NAMES = ["A", "B", "Shape", "my_class", "HTTPServer", "Data_Set", "Node", "Tree", "Base", "Impl"]
 PRIV_CLASS_NAMES = ["_Base", "_Mixin", "_Top", "_Impl"]
@@ -73,7 +73,7 @@ class ApiGen:
 
     def lits(self):
         r = self.r
-        return [r.choice([0, 1, 2, -1, True, False, "a", "b c", "x"]) for _ in range(r.choice([1, 1, 2, 3]))]
+        return r.sample([0, 1, 2, -1, True, False, "a", "b c", "x"], r.choice([1, 1, 2, 3]))
 
     def type_(self, classes, depth=2):
         T, r = self.T, self.r
@@ -238,8 +238,19 @@ class ApiGen:
         c = A.Class(id=cid, name=name, superclasses=supers, is_public=public, docstring=cdoc,
                     inherits_from_exception=r.random() < 0.04)
         used = set()
+        # names of members of (private) base classes that this class may override
+        inherited_names = []
+        for _, _, bc in [x for x in getattr(self, "_all_classes", []) if x[1] in supers]:
+            inherited_names += [m.name for m in bc.methods] + [a.name for a in bc.attributes]
         for _ in range(r.choice([0, 0, 1, 2, 3])):
-            an = self.uniq(ATTR_NAMES, used, ["_hidden_attr"], 0.15)
+            if inherited_names and r.random() < 0.4:
+                an = r.choice(inherited_names)
+                if an in used:
+                    continue
+                used.add(an)
+                self.feat("attribute_overrides_inherited")
+            else:
+                an = self.uniq(ATTR_NAMES, used, ["_hidden_attr"], 0.15)
             t = self.type_(classes) if r.random() < 0.8 else None
             adoc = D.AttributeDocstring(type=None, description=self.text(f"attr {an}"))
             a = A.Attribute(f"{cid}/{an}", an, public and not an.startswith("_"), r.random() < 0.5, t, adoc)
@@ -260,7 +271,14 @@ class ApiGen:
                                                          r.choice(list(VK))))
             self.feat("type_parameters")
         for _ in range(r.choice([0, 1, 2, 3, 4])):
-            mn = self.uniq(FUNC_NAMES, used, PRIV_FUNC_NAMES, 0.2)
+            if inherited_names and r.random() < 0.3:
+                mn = r.choice(inherited_names)
+                if mn in used:
+                    continue
+                used.add(mn)
+                self.feat("method_overrides_inherited")
+            else:
+                mn = self.uniq(FUNC_NAMES, used, PRIV_FUNC_NAMES, 0.2)
             kind = r.choice(["instance", "instance", "instance", "static", "class"])
             m = self.function(cid, mn, classes, kind, public and not mn.startswith("_"))
             if kind == "instance" and r.random() < 0.25:
@@ -299,6 +317,7 @@ class ApiGen:
                     mod_ids.append((sp, mn))
         modules = []
         all_classes: list = []
+        self._all_classes = all_classes
         for sp, mn in mod_ids:
             mid = f"{sp}/{mn}"
             m = A.Module(id_=mid, name=mn, docstring=self.text(f"module {mn}") if r.random() < 0.4 else "")
